@@ -10,9 +10,13 @@
 (***************************************************************************)
 EXTENDS Naturals, Sequences, FiniteSets, TLC, Json
 
-Elems == {"fa", "fb", "CA", "CB", "CC", "fc"}  \* CC: undocumented class with an attribute named like CA's; fc: three results, the first named
-NE == 6
-Perms == { p \in [1..NE -> Elems] : \A i, j \in 1..NE : i # j => p[i] # p[j] }
+Elems == {"fa", "fb", "CA", "CB", "CC", "fc", "CD"}  \* CC: undocumented class with an attribute named like CA's; fc: three results, the first named
+NE == 7
+Perms6 == { p \in [1..6 -> Elems \ {"CD"}] : \A i, j \in 1..6 : i # j => p[i] # p[j] }
+InsertAt(p, k, e) == [ i \in 1..7 |-> IF i < k THEN p[i] ELSE IF i = k THEN e ELSE p[i - 1] ]
+PosOf(p, e) == CHOOSE i \in 1..6 : p[i] = e
+(* every order of the six other elements, with CD first, last and right after CA (all neighbourhoods of CD; all 7! orders are 5 040 modules per style) *)
+Perms == UNION { { InsertAt(p, 1, "CD"), InsertAt(p, 7, "CD"), InsertAt(p, PosOf(p, "CA") + 1, "CD") } : p \in Perms6 }
 Styles == {"PLAINTEXT", "GOOGLE", "NUMPYDOC", "REST"}
 
 (* documented items of an element: <<owner declaration, item, tag, tag name>> *)
@@ -25,6 +29,7 @@ Items(e) ==
     [] e = "CA" -> { <<"CA", "desc", "desc", "">>, <<"CA", "p_x", "param", "x">>, <<"CA.at", "at", "desc", "">> } \cup FunItems("CA.meth", FALSE)
     [] e = "CB" -> { <<"CB", "desc", "desc", "">> } \cup FunItems("CB.meth", FALSE)
     [] e = "CC" -> {}
+    [] e = "CD" -> { <<"CD", "p_z", "param", "z">> }     \* no class docstring; the constructor's docstring documents the parameter
     [] e = "fc" -> { <<"fc", "desc", "desc", "">>, <<"fc", "p_p", "param", "p">>,
                      <<"fc", "ra", "result", "count">>, <<"fc", "rb", "result", "result_1">>, <<"fc", "rc", "result", "result_2">> }
 AllItems == UNION { Items(e) : e \in Elems }
@@ -54,7 +59,7 @@ DescLines(o) == << "tok_" \o Und(o) \o "_desc first line.", "Second line of " \o
 Structured(style) == style # "PLAINTEXT"
 (* which items a style can carry: plain text keeps the whole docstring as description; reST has no examples section *)
 Carried(it, style) ==
-  CASE style = "PLAINTEXT" -> it[2] \notin {"ra", "rb", "rc"}
+  CASE style = "PLAINTEXT" -> it[2] \notin {"ra", "rb", "rc", "p_z"}
     [] style = "REST" -> it[2] \notin {"ex", "ra", "rb", "rc"}
     [] style = "GOOGLE" -> it[2] \notin {"ra", "rb", "rc"}      \* only NumPy sections carry several results
     [] OTHER -> TRUE
